@@ -26,3 +26,21 @@ Theorem C10_outline_vectors_at_master_locations : forall m0 m1,
   length m0 = length m1 -> blend m0 m1 0 = m0 /\ blend m0 m1 1 = m1.
 Proof. exact blend_endpoints. Qed.
 Print Assumptions C10_outline_vectors_at_master_locations.
+
+(* ---- any number of masters, any number of axes ----
+   ufo2ft's Variator and varLib build instances / variation data with VariationModel.getDeltas and interpolateFromDeltas.
+   rows: row i = the scalars of all regions at master i's location (masters in the model's order).  Hypothesis rows_ok
+   (region i has scalar 1 at master i, every later region scalar 0 there) is evaluated on the real model's scalars by the
+   check; under it the model reproduces EVERY master at that master's location. *)
+From U2F Require Import Interp.VarModel Interp.VarModelProofs.
+
+Theorem C10_every_master_reproduced_at_its_location : forall ms rows,
+  rows_ok (length ms) rows = true ->
+  forall i m r, nth_error ms i = Some m -> nth_error rows i = Some r ->
+  interpolate r (get_deltas ms rows []) = m.
+Proof. exact model_reproduces_masters. Qed.
+Print Assumptions C10_every_master_reproduced_at_its_location.
+
+Example C10_three_master_rows_ok : rows_ok 3 [[1; 0; 0]; [1; 1; 0]; [1; 0; 1]]%Qc = true.
+Proof. exact three_master_rows_ok. Qed.
+Print Assumptions C10_three_master_rows_ok.
